@@ -126,7 +126,10 @@ func TestVerif_C09_Unmap(t *testing.T) {
 		return "unknown query", nil
 	}
 	run := func(sc c09uScenario, c *explore.Ctx) explore.Result {
-		cache.Reset()
+		// (through an interface: the method is younger than the harness' oldest supported tree)
+		if r, ok := interface{}(cache).(interface{ Reset() error }); ok {
+			r.Reset()
+		}
 		vmmap.ReopenAll()
 		oldCopy, newCopy := *masterOld, *masterNew
 		old, fresh := &oldCopy, &newCopy
